@@ -288,6 +288,43 @@ def prog():
     backend.prove()
     return out
 """, {"a": lambda c: SymInt(z3.Int("s_a"))}),
+        "no_arguments_two_results": ("""
+def prog():
+    @subqap("gen")
+    def gen():
+        s = PrivVal(a)
+        return s * s, s + 1
+    u, v = gen()
+    w, z = gen()
+    out = (u * v + w - z).val()
+    backend.prove()
+    return out
+""", {"a": lambda c: SymInt(z3.Int("s_a"))}),
+        "plain_and_secret_arguments": ("""
+def prog():
+    @subqap("mix")
+    def mix(x, k, y):
+        return x * y + k
+    p = PrivVal(a)
+    q = PrivVal(b)
+    r1 = mix(p, 3, q)
+    r2 = mix(q, 3, r1)
+    out = r2.val()
+    backend.prove()
+    return out
+""", {"a": lambda c: SymInt(z3.Int("s_a")), "b": lambda c: SymInt(z3.Int("s_b"))}),
+        "scaled_and_constant_arguments": ("""
+def prog():
+    @subqap("sc")
+    def sc(v):
+        return v * v
+    x = PrivVal(a)
+    y = sc(2 * x)
+    z = sc(-y)
+    out = z.val()
+    backend.prove()
+    return out
+""", {"a": lambda c: SymInt(z3.Int("s_a"))}),
         "inconsistent_calls": ("""
 def prog():
     @subqap("chk")
@@ -309,21 +346,29 @@ def prog():
         # calls of one named function with different equation sets must be reported at proving time
         return [(ValueError, c.cfg["program"] == "inconsistent_calls")]
 
+    # per program: sub-circuit function -> (secret arguments, secret results, calls)
+    FUNCS = {"square_twice": {"sq": (1, 1, 2)}, "inconsistent_calls": {"chk": (1, 1, 2)},
+             "no_arguments_two_results": {"gen": (0, 2, 2)}, "scaled_and_constant_arguments": {"sc": (1, 1, 2)}, "plain_and_secret_arguments": {"mix": (2, 1, 2)}}
+
     def extra(self, c, r, wires, io, eqs, directives):
         p = self.prime
         d = {}
+        funcs = self.FUNCS[c.cfg["program"]]
         blocks = {(t[1], t[2]): t[3:] for t in directives if t[0] == "[ioblock]"}
         glues = [t for t in directives if t[0] == "[glue]"]
         fns = [t for t in directives if t[0] == "[function]"]
-        calls = [t for t in fns if t[1] == "sq"]
-        d["V.two_calls_of_same_function"] = len(calls) == 2
-        d["V.one_glue_per_call"] = len(glues) == len(calls)
+        fname_of = {t[2]: t[1] for t in fns}
+        calls = [t for t in fns if t[1] in funcs]
+        d["V.two_calls_of_same_function"] = all(len([t for t in fns if t[1] == f]) == n for f, (_a, _r, n) in funcs.items())
+        # every call of a sub-circuit function is tied to its caller: one glue per call, whatever its arity
+        d["V.one_glue_per_call"] = len(glues) == len(calls) and sorted(t[3] for t in glues) == sorted(t[2] for t in calls)
         for gi, t in enumerate(glues):
             b1, b2 = blocks.get((t[1], t[2])), blocks.get((t[3], t[4]))
             ok = b1 is not None and b2 is not None and len(b1) == len(b2)
             d["V.glue[%d].paired_blocks_equal_length" % gi] = ok
             if ok:
-                d["V.glue[%d].lists_argument_and_result" % gi] = len(b1) == 2
+                na, nr, _n = funcs.get(fname_of.get(t[3]), (None, None, None))
+                d["V.glue[%d].lists_argument_and_result" % gi] = na is not None and len(b1) == na + nr
                 d["V.glue[%d].pairwise_equal_values" % gi] = And(*[modeq(term(wires[u]), term(wires[v]), p) for u, v in zip(b1, b2)]) \
                     if all(u in wires and v in wires for u, v in zip(b1, b2)) else False
                 r1 = wires.get(t[1] + "/rnd1_" + t[2])
@@ -332,11 +377,12 @@ def prog():
         # same named function => one equation file, one digest
         sched = [l.split() for l in c.w.read_lines("pysnark_schedule")]
         fl = [l for l in sched if l and l[0] == "[function]"]
-        sq = [l for l in fl if "pysnark_eqs_sq" in l[2]]
         d["V.schedule_lists_every_call"] = len(fl) == len(fns)
         # the glue directives reach the schedule file verbatim (the proving tools read them there)
         d["V.schedule_lists_every_glue"] = [l for l in sched if l and l[0] == "[glue]"] == [[str(x) for x in t] for t in glues]
-        d["V.calls_share_equation_file"] = len(sq) == 2 and sq[0][2:] == sq[1][2:]
+        for f, (_a, _r, n) in funcs.items():
+            mine = [l for l in fl if ("pysnark_eqs_" + f) in l[2]]
+            d["V.calls_share_equation_file"] = len(mine) == n and all(x[2:] == mine[0][2:] for x in mine)
         return d
 
 
